@@ -13,6 +13,7 @@ state `s` (any number of entries, any theta, any seed hash), every expected seed
 import DSProofs.Lemmas.WireThetaLegacy
 import DSProofs.Lemmas.WireThetaBounded
 import DSProofs.Gen.BitPack
+import DSProofs.Lemmas.WireThetaV4IR
 namespace DS.Wire.Theta
 open DS.Wire
 
@@ -77,8 +78,32 @@ theorem compressed_roundtrip (c : Consts) (hc : c.ok = true) (s : Image) (hwf : 
   · simp only [hs, Bool.false_eq_true, ↓reduceIte]
     exact decode_encode c hc s hwf exp hseed tail
 
-/-- wrapped read-only access: `wrap` + its iterator are the same parser as `deserialize` (one specification reader
-for both; the harness compares the real wrapped iterator with the real deserializer on every image). -/
-theorem wrapped_iter_eq_deserialize (c : Consts) (exp : Nat) (b : Bytes) : wrapDecode c exp b = decode c exp b := rfl
+/-! ### the compressed format over the routines translated from bit_packing.hpp -/
+
+/-- every translated block routine pair (through the translated `switch` dispatchers) round-trips all inputs: for every
+width n = 1..63 and all 8 values below 2^n, `pack_bits_block8` into a zero-filled block followed by
+`unpack_bits_block8` returns the values, and the bytes in between are the documented MSB-first layout.
+(Lifted from the kernel-evaluated `bitpack_layouts_ok` by the soundness lemma of the symbolic evaluator.) -/
+theorem bitpack_roundtrip (n : Nat) (h1 : 1 ≤ n) (h63 : n ≤ 63) (vals : List Nat) (h8 : vals.length = 8) (hv : ∀ v ∈ vals, v < 2 ^ n) :
+    BitPack.irPack8 n vals = BitPack.packFields n vals ∧ BitPack.irUnpack8 n (BitPack.irPack8 n vals) = vals := by
+  have hp := BitPack.irPack8_eq n h1 h63 vals h8 hv
+  refine ⟨hp, ?_⟩
+  rw [hp, BitPack.irUnpack8_eq n h1 h63 _ (by rw [BitPack.length_packFields, h8]; unfold BitPack.bytesForBits; omega)]
+  have := BitPack.unpackFields_packFields n vals hv
+  rw [h8] at this
+  exact this
+
+example : BitPack.irPack8 3 [1, 2, 3, 4, 5, 6, 7, 0] = [0x29, 0xcb, 0xb8] := by decide
+
+/-- the writer that packs whole blocks of 8 deltas with the TRANSLATED routines (and the tail as a bit stream, as the scalar
+`pack_bits` does) produces exactly the specification image, so `theta_v4_roundtrip` holds for it. -/
+theorem encodeV4_over_translated_routines (c : Consts) (s : Image) (h4 : WFv4 s) : encodeV4IR c s = encodeV4 c s :=
+  encodeV4IR_eq c s h4
+
+/-- wrapped read-only access and `deserialize(bytes)`: both decode the packed area block by block with
+`unpack_bits_block8` and finish with the scalar tail, undoing the deltas as they go; on EVERY input that is the same
+function as the whole-stream specification reader (hence wrapped iteration = deserialization = `decode`). -/
+theorem wrapped_iter_eq_deserialize (exp pre : Nat) (b : Bytes) : decodeV4IR exp pre b = decodeV4 exp pre b :=
+  decodeV4IR_eq exp pre b
 
 end DS.Wire.Theta
